@@ -52,6 +52,10 @@ TABLE = [
     ("CG:SOR", ["spd", "hpd"], ["csc"]),
     ("CG:ILU", ["spd", "hpd"], ["csc"]),
     ("auto", ALLC, ["dense", "csc"]),
+    # the linear-dependency-aware wrapper is a solver like the others (LinSolve's default): judged to its own tolerance; its history
+    # semantics are C06's subject, here it only has to solve what is asked for every matrix class
+    ("LDAWrapper:SolverDenseLU", ALLC, ["dense"]),
+    ("LDAWrapper:SolverSparseLU", ALLC, ["csc"]),
 ]
 
 
@@ -91,6 +95,8 @@ def make_solver(cfg, cls, A):
         pc = {"Preconditioner": lambda: S.Preconditioner(), "DampedJacobi": lambda: S.DampedJacobi(w=0.8),
               "SOR": lambda: S.SOR(w=1.2), "ILU": lambda: S.ILU()}[cfg[3:]]()
         return S.CG(preconditioner=pc, tol=1e-9, maxit=2000)
+    if cfg.startswith("LDAWrapper:"):
+        return S.LDAWrapper(getattr(S, cfg.split(":")[1])())
     if cfg == "SolverDenseLDL:hermitian=flag":
         return S.SolverDenseLDL(hermitian=cls in ("spd", "hpd", "sym", "herm"))
     return getattr(S, cfg)()
@@ -196,9 +202,9 @@ def run_table(case, ctx):
         warnings.simplefilter("ignore")
         solver = make_solver(cfg, cls, As)
         solver.update(As)
-    it = getattr(solver, "tol", None) if type(solver).__name__ == "CG" else None
+    it = getattr(solver, "tol", None) if type(solver).__name__ in ("CG", "LDAWrapper") else None
     allow_zero = True
-    slu = cfg in ("CG:SOR", "CG:ILU")
+    slu = cfg in ("CG:SOR", "CG:ILU", "LDAWrapper:SolverSparseLU")
     j = judge(ctx, solver, As, cond, it, allow_zero, rng, cfg, slu)
     # a second matrix of the same class through update(): nothing of the first factorisation may survive
     A2 = matgen.perturb_same_class(rng, A, cls)
